@@ -16,7 +16,7 @@ import (
 
 func init() {
 	register(&Prop{ID: "C10", Run: runC10, MinNontrivial: 500,
-		Rule:        "cases = LogoutRequest/LogoutResponse records with 0-2 injected faults (Version, Destination incl. near-misses, Issuer absent/other/empty, Status absent/StatusCode absent/non-Success/second-level Success) x signing state (unsigned, trusted, untrusted, trusted cert + foreign key, tampered after signing, signature relocated into a child, genuine signed message wrapped by evil content with same or fresh ID) x raw/DEFLATE x skip on/off x issuer configured or not, plus kind confusion (SSO Response, AuthnRequest, the other logout kind, the SP's own output) and direct ValidateDecodedLogout* calls on hand-built structs; oracle: accept iff reference checks pass and (no root signature or it verifies), flag iff not skip and root signature verified, flagged => returned fields equal the signed record, typed error names a violated check, foreign kinds never accepted; non-trivial = document parsed and reached the checks; distinct by parameter tuple; configured SLO / issuer values with metacharacters and the same near-miss values; unsigned messages against a nil certificate store; unused namespace declarations spelled like the checked attributes added to a signed root tag (state nsdecl-added); a second ID attribute written in front of the real one on a signed root (tampered); Version spellings; Issuer Format attributes",
+		Rule:        "cases = LogoutRequest/LogoutResponse records with 0-2 injected faults (Version, Destination incl. near-misses, Issuer absent/other/empty, Status absent/StatusCode absent/non-Success/second-level Success) x signing state (unsigned, trusted, untrusted, trusted cert + foreign key, tampered after signing, signature relocated into a child, genuine signed message wrapped by evil content with same or fresh ID) x raw/DEFLATE x skip on/off x issuer configured or not, plus kind confusion (SSO Response, AuthnRequest, the other logout kind, the SP's own output) and direct ValidateDecodedLogout* calls on hand-built structs; oracle: accept iff reference checks pass and (no root signature or it verifies), flag iff not skip and root signature verified, flagged => returned fields equal the signed record, typed error names a violated check, foreign kinds never accepted; non-trivial = document parsed and reached the checks; distinct by parameter tuple; configured SLO / issuer values with metacharacters and the same near-miss values; unsigned messages against a nil certificate store; unused namespace declarations spelled like the checked attributes added to a signed root tag (state nsdecl-added); a second ID attribute written in front of the real one on a signed root (tampered); Version spellings; Issuer Format attributes; the schema's optional attributes NotOnOrAfter / Reason / Consent with past, future and unreadable values",
 		Assumptions: []string{"for a relocated signature only the implication 'flagged => fields equal the signed record' is asserted (goxmldsig accepts an enveloped signature anywhere below the root)"}})
 }
 
@@ -190,6 +190,19 @@ func GenLogoutCase(r *rand.Rand, w *World, isResp bool) (*LogoutCase, error) {
 	}
 	if l.Issuer != nil && r.IntN(4) == 0 {
 		l.IssuerFormat = sim.S(pick(r, IssuerFormats))
+	}
+	if r.IntN(3) == 0 {
+		// the schema's optional attributes (an expiry and a reason on requests, consent on both): whatever they say,
+		// the checks the profile names are made, and the message comes back or is refused, never both
+		if !isResp {
+			l.NotOnOrAfter = sim.S(pick(r, []string{sim.TS(w.Now.Add(time.Hour)), sim.TS(w.Now.Add(-time.Hour)), sim.TS(w.Now), "never", "", sim.TS(w.Now.AddDate(200, 0, 0)), sim.TS(w.Now.Add(time.Second))}))
+			if r.IntN(2) == 0 {
+				l.Reason = sim.S(pick(r, []string{"urn:oasis:names:tc:SAML:2.0:logout:user", "urn:oasis:names:tc:SAML:2.0:logout:admin", "", "x"}))
+			}
+		}
+		if r.IntN(2) == 0 {
+			l.Consent = sim.S(pick(r, []string{"urn:oasis:names:tc:SAML:2.0:consent:unspecified", "urn:oasis:names:tc:SAML:2.0:consent:obtained", ""}))
+		}
 	}
 	lc.State = pick(r, []string{"unsigned", "trusted", "trusted", "untrusted", "foreign-key", "tampered", "relocated", "wrapped-fresh", "wrapped-same", "unsigned-flag-injected", "unsigned-shadow-attrs", "nsdecl-added"})
 	st := sim.RandomStyle(r)
